@@ -114,6 +114,11 @@ def invalid_values(spec):
             else:
                 lo, hi = midi1.DOMAIN[n]
                 out += [(n, hi + 1), (n, lo - 1), (n, 1.0), (n, None)]
+                # the value the message already holds (validated when it was built), as a float / Decimal / Fraction:
+                # equal to the int, the same hash - and still no integer
+                cur = spec[2].get(n, midi1.DEFAULTS.get(n, 0))
+                import decimal
+                out += [(n, float(cur)), (n, Fraction(cur)), (n, decimal.Decimal(cur))]
         out.append(('type', 'clock' if spec[1] != 'clock' else 'start'))
     elif kind == 'meta':
         t = spec[1]
@@ -175,6 +180,12 @@ def judge_copy(ctx, spec, rng):
                                              'fresh': repr(want)[:100] if want_exc is None else repr(want_exc)[:100]})
         ctx.check('invalid override leaves original unchanged' if got_exc is not None else
                   'copy leaves original unchanged', same(m, s), f'original-changed:{key}', lambda: case(ov), None)
+        if got is not None and spec[0] == 'msg' and not ov.get('skip_checks'):
+            # whatever a fresh construction would say: a copy made without skip_checks is a valid message by the
+            # reference's own definition (integers in range, time a real number)
+            why = midi1.valid(got)
+            ctx.check('copy(**ov) == fresh construction', why is None, f'copy-returned-invalid-message:{"+".join(sorted(ov))}',
+                      lambda: case(ov), lambda: {'why': why, 'copy': repr(vars(got))[:160]})
     # aliasing: assign on the copy, then on the original
     c = m.copy()
     sm, sc = snap(m), snap(c)
